@@ -9,7 +9,8 @@ from ..obs import guarded, is_exc
 
 LEVEL = "exploration"
 RULE = (
-    "Near-collision families: from a base URL, members differ minimally in exactly one component (case, one character, ''-vs-'/', explicit "
+    "Near-collision families: from a base URL (host kinds: reg-name in three cases, A-label lower/upper case, IDN, IPv4, IPv6, IPv6+zone, trailing dot, "
+    "EMPTY host under userinfo/port), members differ minimally in exactly one component (case, one character, ''-vs-'/', explicit "
     "default port, empty-vs-absent password, trailing '&', fragment) and the same value is reached by different routes (URL(str), build, "
     "modifiers, encoded=True, unpickled copy).  All ordered pairs and all triples inside a family are checked against the equality model "
     "(scheme, authority, path with ''=='/' under an authority, query, fragment), hash agreement, symmetry, transitivity, trichotomy, "
@@ -35,11 +36,17 @@ def family(rng, idx):
     from yarl import URL
 
     schemes = ["http", "https", "foo", "", "ws"]
-    hosts = ["example.com", "h", "[::1]", "127.0.0.1", "é.com"]
+    hosts = ["example.com", "h", "[::1]", "127.0.0.1", "é.com", "", "EXAMPLE.Com", "xn--mnchen-3ya.de", "XN--MNCHEN-3YA.DE", "[fe80::1%eth0]", "example.com.", ""]
     sch = schemes[idx % len(schemes)]
     host = hosts[(idx // 5) % len(hosts)]
     user = rng.choice(["", "u", "u:", "u:p", ":p"])
     port = rng.choice(["", ":80", ":443", ":8080", ":0"])
+    if host == "":
+        # an authority without a host (only userinfo and/or port): legal for non-special schemes only
+        if sch in ("http", "https", "ws"):
+            sch = "git"
+        if not user and not port:
+            port = ":81"
     path = rng.choice(["", "/", "/a", "/a/", "/a/b", "/A", "/a%20b", "/a%2Fb"])
     q = rng.choice(["", "?a=1", "?a=1&", "?a=1&b=2", "?b=2&a=1", "?A=1"])
     f = rng.choice(["", "#f", "#F", "#"])
